@@ -6,7 +6,12 @@ from concurrent.futures import ThreadPoolExecutor
 VERIF = os.path.dirname(os.path.dirname(os.path.dirname(os.path.realpath(__file__))))
 SPEC = VERIF + "/spec"
 WORK = VERIF + "/work"
-VFH = VERIF + "/target/harness/debug/vfh"
+# the repository under test: /repo.  VERIF_REPO may point at another checkout (only used to evaluate seeded changes in
+# scratch worktrees without touching /repo); each checkout gets its own build directory.
+REPO = os.environ.get("VERIF_REPO", "/repo")
+TAG = "" if REPO == "/repo" else "_" + os.path.basename(REPO.rstrip("/"))
+TDIR = VERIF + "/target/harness" + TAG
+VFH = TDIR + "/debug/vfh"
 JOPTS = "-Xss1g -Dtlc2.tool.queue.IStateQueue=StateDeque"
 
 class ToolError(Exception):
@@ -18,8 +23,9 @@ def cargo_build(profile="dev"):
     for k in ("CARGO_TARGET_DIR", "CARGO_BUILD_TARGET_DIR", "RUSTFLAGS", "CARGO_ENCODED_RUSTFLAGS"):
         env.pop(k, None)
     if not os.path.exists(VERIF + "/harness/Cargo.lock"):
-        shutil.copy("/repo/Cargo.lock", VERIF + "/harness/Cargo.lock")
-    cmd = ["cargo", "build", "--offline", "--target-dir", VERIF + "/target/harness"] + (["--profile", profile] if profile != "dev" else [])
+        shutil.copy(REPO + "/Cargo.lock", VERIF + "/harness/Cargo.lock")
+    env["VERIF_REPO"] = REPO
+    cmd = ["cargo", "build", "--offline", "--target-dir", TDIR] + (["--profile", profile] if profile != "dev" else [])
     p = subprocess.run(cmd, cwd=VERIF + "/harness", env=env, capture_output=True, text=True)
     if p.returncode != 0:
         raise ToolError("harness does not build against /repo:\n" + p.stderr[-4000:])
